@@ -242,7 +242,7 @@ class Interner:
 def apply_step(sb, step):
     op = step[0]
     if op == "write":
-        sb.write(Y.fs_path(step[1]), Y.render_spec(step[2]))
+        sb.write(Y.fs_path(step[1]), Y.render_spec(step[2]), keep_mtime=(len(step) > 3 and step[3] == "keep_mtime"))
     elif op == "delete":
         sb.remove(Y.fs_path(step[1]))
     elif op == "mkdir":
